@@ -62,6 +62,18 @@ def build(I, st, fr, kind):
         s = om.sym_scalar('s', 'real')
         h = I.call(cls('FunctionalRightScalarMult'), [f.op, s], {}, fr)
         return dict(h=h, X=X, value=lambda x: fv(v_mul(s, x)), grad=lambda x: v_mul(s, gf(v_mul(s, x))), lip=s * s * f.L)
+    if kind == 'right_scalar_nested':
+        a, b_ = om.sym_scalar('a', 'real'), om.sym_scalar('b', 'real')
+        h0 = I.call(cls('FunctionalRightScalarMult'), [f.op, a], {}, fr)
+        h = I.call(cls('FunctionalRightScalarMult'), [h0, b_], {}, fr)
+        s = a * b_
+        return dict(h=h, X=X, value=lambda x: fv(v_mul(s, x)), grad=lambda x: v_mul(s, gf(v_mul(s, x))), lip=s * s * f.L)
+    if kind == 'left_scalar_nested':
+        a, b_ = om.sym_scalar('a', 'real'), om.sym_scalar('b', 'real')
+        h0 = I.call(cls('FunctionalLeftScalarMult'), [f.op, a], {}, fr)
+        h = I.call(cls('FunctionalLeftScalarMult'), [h0, b_], {}, fr)
+        s = a * b_
+        return dict(h=h, X=X, value=lambda x: s * fv(x), grad=lambda x: v_mul(s, gf(x)), lip=abs(s) * f.L)
     if kind == 'right_vector':
         v = X.element('v')
         h = I.call(cls('FunctionalRightVectorMult'), [f.op, v], {}, fr)
@@ -120,7 +132,7 @@ def build(I, st, fr, kind):
     raise KeyError(kind)
 
 
-KINDS = ['left_scalar', 'right_scalar', 'right_vector', 'sum', 'scalar_sum', 'translation', 'translation_nested', 'comp_lin',
+KINDS = ['left_scalar', 'right_scalar', 'right_scalar_nested', 'left_scalar_nested', 'right_vector', 'sum', 'scalar_sum', 'translation', 'translation_nested', 'comp_lin',
          'comp_nonlin', 'quadpert', 'quadpert_nolin', 'product', 'quotient', 'bregman']
 
 
